@@ -14,8 +14,8 @@ SIGMA_D = {
     "quick": [(1, 0), (0, 1), (1, 1), (2, 1), (1, 3), (5, 0)],
     "thorough": [(1, 0), (0, 1), (1, 1), (2, 1), (1, 3), (3, 2), (5, 0), (0, 4)],
 }
-NAN_CELLS = {"quick": [None, (0, 2), (2, 1)], "thorough": [None, (1, 0), (0, 2), (2, 1), (4, 4)]}
-MIN_FREQS = {"quick": [0.34, 0.25, 0.1], "thorough": [0.5, 0.34, 0.3, 0.25, 0.2, 0.15, 0.1, 0.05]}
+NAN_CELLS = {"quick": [None, (0, 2), (2, 1)], "thorough": [None, (1, 0), (0, 2), (2, 1)]}
+MIN_FREQS = {"quick": [0.34, 0.25, 0.1], "thorough": [0.34, 0.3, 0.25, 0.2, 0.1, 0.05]}
 
 CLASSES_BY_KIND = {
     "QNT": ["ContinuousDiscretizer", "QuantitativeDiscretizer", "Discretizer"],
@@ -214,7 +214,7 @@ def _enumerate_cases(tier, seed, classes="discretizers"):
                                     continue
                                 cases.append({"cls": cls, "kind": kind, "cells": [list(c) for c in cells], "nan": list(nan) if nan else None, "min_freq": mf, "target": target, "seed": seed, "companion": None})
         # deeper, cheap: ContinuousDiscretizer alone on longer columns of plain counts
-        kdeep = {"quick": 5, "thorough": 6}[tier]
+        kdeep = {"quick": 5, "thorough": 5}[tier]
         counts = [(1, 0), (1, 1), (2, 1), (3, 2)] if tier == "quick" else [(1, 0), (1, 1), (2, 1), (1, 3), (3, 2)]
         tabs, tr = space.construct(counts, kmax + 1, kdeep, ordered=True)
         transitions += tr
